@@ -4,7 +4,23 @@ import json, subprocess
 props=[json.loads(l) for l in open('/verif/properties.jsonl')]
 MC="stateless model checking: exhaustive schedule enumeration (DFS, preemption/fault-bounded) of the real implementation under a cooperative scheduler"
 ES="explicit-state model checking: breadth-first search over operation histories of the real object in lock-step with a reference model, deduplicated on the canonical heap"
+E3T="bounded exhaustive enumeration of inputs (full ranges / boundary alphabets / all terms up to a depth) on the real code against an independent reference encoder or the stated laws"
 checks={
+ "C01":dict(engine="E3",cat="exploration",tech=E3T,
+   text="every 16- and 24-bit pattern (and every 32-bit pattern in the thorough tier), boundary alphabets for 40/64-bit and float domains, all blob/text/array length thresholds, the little-endian helpers, and every write program of length <= 3 (4 thorough) over a 26-operation alphabet are encoded by golib and compared byte for byte with an independent reference encoder, Size() after every write, values and Available() after every read",
+   note="64-bit domains by boundary alphabet, not range; quick tier covers 32-bit domains by boundary alphabet plus dense bands around decimal class borders",ref="DESIGN.md 4 C01"),
+ "C02":dict(engine="E3",cat="exploration",tech=E3T,
+   text="all 256 type codes probed; every value term up to depth 2 (3 thorough) and width 2 (3) over the scalar alphabets of all 20 types, plus shape cases (sizes around table growth and count classes, colliding keys, nesting depth 64): bytes equal the reference encoder's, decode is structurally equal with order preserved, consumes exactly, re-encodes identically",
+   note="scalar payloads from boundary alphabets",ref="DESIGN.md 4 C02"),
+ "C11":dict(engine="E2+E1",cat="model_checking",tech=ES+"; "+MC,
+   text="sequential: BFS over put/put-force/get-no-wait/get-timeout/clear/set-capacity histories of both queue types against a FIFO model with refusal/eviction callbacks and virtual-time timeouts; concurrent: every schedule (preemption bound 2 quick / 3 thorough) of 1-2 producers and 1-2 blocking or timed consumers, checked for exactly-once accounting, per-producer order, refusals, early time-outs and stranded consumers",
+   note="virtual time (a sleep takes >= 1 ms); element identities reused after leaving the queue; capacities 0-3",ref="DESIGN.md 4 C11"),
+ "C13":dict(engine="E2+E3",cat="model_checking",tech=ES+"; "+E3T,
+   text="BFS over add/set/get/add-all/to-array histories of the five typed lists (every constructor capacity, indices at -1/0/size-1/size/cap-1/cap, bulk adds across the grow-by-half steps, wire round trip in every state) and of the linked list against slice models; every array up to length 5 (7) over a 4-value alphabet sorted in both directions alone and with every child list of every type; every index list up to length 3 (4) for filtering",
+   note="NaN excluded as the property says; string<->number conversions judged only for parse-back equality",ref="DESIGN.md 4 C13"),
+ "C20":dict(engine="E3",cat="exploration",tech=E3T,
+   text="every ordered pair and every triple of a universe of ~500 values (all 20 types, nil vs empty payloads, summaries differing in one field, containers of equal size with different keys / orders / element types) is evaluated on the real Equals/CompareTo: totality, reflexivity, equality with the decoded copy, symmetry, transitivity, sign reversal, zero-iff-equal for scalars, type-consistent cross-type order",
+   note="NaN only for totality; known findings (map comparison has no canonical order) are listed in known_findings.jsonl",ref="DESIGN.md 4 C20"),
  "C09":dict(engine="E2",cat="model_checking",tech=ES,
    text="every operation history up to the stated depth (fixpoint where the alphabet is finite) over every public method of the 13 linked types, every constructor (capacity x load factor) and prefilled states around the growth thresholds, executed on the real type and compared step by step and state by state with an insertion-ordered dictionary model",
    note="bounds: 3 keys (colliding in bucket 0 of the 101- and 203-bucket tables, plus the empty string / extreme keys) x 2 values, depth 5 quick / 6-7 thorough; lenient points of the model are listed in DESIGN.md Appendix A; ToString and serialisation are not operations of this property",ref="DESIGN.md 4 C09"),
